@@ -7,6 +7,7 @@ COMMON_TRUSTED = [
     "pyvc engine: symbolic proxies, loop-cut rule, finite-scope refutation (a finite model is a model)",
 ]
 COMMON_ASSUMPTIONS = [
+    "string-level facts about generated ids are ASSUMED in the deductive part (ids are an uninterpreted sort): make_axn_id is injective in the argument slot, _lazy_xn_id / count_occurrences give a fresh id per call site, prefixing by the enclosing DAG names is injective; they are exercised only by the bounded program-level stand-ins",
     "contracts and invariants say what the property says (each top-level clause is named after the property sentence it encodes)",
     "node functions terminate and do not touch tawazi internals",
     "Python ints are mathematical integers (exact); no floating point is involved",
@@ -23,7 +24,7 @@ SCHED_TRUSTED = [
 SCHED_ASSUMPTIONS = [
     "bridge between scheduler-observed state and real time: a pooled node's function runs inside [its submit/ensure_future call, the wait that reports it done] (DESIGN 3.4)",
     "rely/guarantee: workers write only results[own id] / profiles[own id]; a future that returns normally has written results[id]",
-    "precondition wf_exec of async_execute (graph nodes are keys of exec_nodes, dependencies inside the graph are edges, acyclic, max_concurrency >= 1); P1/P4/P5 are proved at the call sites (contracts/dagproto.py), P2/P3 rest on from_exec_nodes (bounded stand-in only)",
+    "precondition wf_exec of async_execute (graph nodes are keys of exec_nodes, dependencies inside the graph are edges, acyclic, max_concurrency >= 1); P1/P4/P5 are proved at the call sites (contracts/dagproto.py); P2 (every reference is an edge) and P3 (acyclic) are the post-condition of DiGraphEx.from_exec_nodes (contracts/graphbuild.py) for the DAG's graph, and the derived graphs (deepcopy, make_subgraph, extend_graph_with_debug_nodes) are induced sub-graphs of it (same edge relation E by the trusted networkx contracts)",
     "'ready' and 'in flight' are the scheduler's knowledge state: a node that finished but has not been observed by a wait still counts as in flight",
 ]
 SW = dict(kind="sched")
@@ -34,23 +35,23 @@ def P_(groups, bounded=(), harness=None, trusted=SCHED_TRUSTED, assumptions=SCHE
 
 
 PROPS = {
-    "C01": P_(["values", "dagproto", "nodeexec"], ["programs", "programs_flat", "reference_matrix"], claim="other",
+    "C01": P_(["values", "dagproto", "nodeexec", "nodebuild"], ["programs", "programs_flat", "reference_matrix"], claim="other",
               explanation="Mixed: the value-level functions between the recorded node table and the returned value are proved against their contracts; that the recorded table is the meaning of the describing function (tracing) is only covered by the bounded program-level stand-in."),
-    "C02": P_(["scheduler", "values", "nodeexec"], ["reference_matrix"], dict(SW)),
-    "C03": P_(["scheduler", "values", "digraph", "dagproto"], ["programs_flat", "selection"], dict(SW, active=True)),
+    "C02": P_(["scheduler", "values", "nodeexec", "graphbuild", "nodebuild"], ["reference_matrix", "graph_build"], dict(SW)),
+    "C03": P_(["scheduler", "values", "digraph", "dagproto", "graphbuild", "nodebuild"], ["programs_flat", "selection", "graph_build"], dict(SW, active=True)),
     "C04": P_(["scheduler", "values", "dagproto", "dagadmin"], ["config"], dict(SW)),
     "C05": P_(["scheduler", "nodeexec"], ["config"], dict(SW)),
-    "C06": P_(["scheduler", "digraph", "dagproto"], ["config"], dict(SW)),
-    "C07": P_(["digraph", "dagproto", "nodeexec", "dagadmin"], ["priority_table", "config"]),
-    "C08": P_(["scheduler", "dagproto", "dagadmin"], ["config"], dict(SW)),
-    "C09": P_(["scheduler", "values"], [], dict(SW, fail=True, active=True)),
-    "C10": P_(["scheduler", "values"], ["programs", "reference_matrix"], dict(SW, active=True)),
-    "C11": P_(["dagproto", "digraph", "values", "dagadmin"], ["setup_histories", "build_validation"]),
-    "C12": P_(["digraph", "dagproto", "values", "dagadmin"], ["selection"]),
-    "C13": P_(["digraph", "dagproto", "dagadmin"], ["selection_debug", "build_validation"]),
+    "C06": P_(["scheduler", "digraph", "dagproto", "graphbuild"], ["config", "graph_build"], dict(SW)),
+    "C07": P_(["digraph", "dagproto", "nodeexec", "dagadmin", "graphbuild"], ["priority_table", "config", "graph_build"]),
+    "C08": P_(["scheduler", "dagproto", "dagadmin", "graphbuild"], ["config", "graph_build"], dict(SW)),
+    "C09": P_(["scheduler", "values", "graphbuild"], ["graph_build"], dict(SW, fail=True, active=True)),
+    "C10": P_(["scheduler", "values", "graphbuild", "nodebuild"], ["programs", "reference_matrix"], dict(SW, active=True)),
+    "C11": P_(["dagproto", "digraph", "values", "dagadmin", "graphbuild", "nodebuild"], ["setup_histories", "build_validation", "graph_build"]),
+    "C12": P_(["digraph", "dagproto", "values", "dagadmin", "graphbuild"], ["selection", "graph_build"]),
+    "C13": P_(["digraph", "dagproto", "dagadmin", "graphbuild", "nodebuild"], ["selection_debug", "build_validation", "graph_build"]),
     "C14": P_(["scheduler", "values", "dagproto", "nodeexec"], ["profile"], dict(SW, fail=True)),
     "C15": P_(["dagproto", "values", "digraph", "dagadmin"], ["no_leak", "selection", "compose"]),
-    "C16": P_(["threads", "dagproto", "values"], ["threads"], claim="other",
+    "C16": P_(["threads", "dagproto", "values", "nodebuild"], ["threads"], claim="other",
               explanation="Mixed: the ownership guards (who may take the description branch, lock discipline of threadsafe_make_dag, frames of the run path) are proved; LazyExecNode.__call__ and real interleavings are covered by the bounded thread stand-in only."),
     "C17": P_(["scheduler", "values", "dagproto"], ["async", "programs_flat"], dict(SW)),
     "C18": P_(["dagproto", "dagadmin"], ["cache"]),
